@@ -265,16 +265,17 @@ var c02Model = porcupine.Model{
 }
 
 // definiteFailure: the error proves the request was never appended to the log.
+//
+// Every request goes through proxy.Execute with forwarding enabled. A local
+// "not leader" never reaches the caller (it triggers forwarding), so any other
+// error text comes from the REMOTE node, and cluster.Client.retry re-sends a
+// forwarded command on a fresh connection after an ambiguous failure: the first
+// copy may have been applied by the old leader while the second copy is answered
+// "not leader" by a node that has meanwhile been deposed. (First seen as a false
+// alarm in the thorough tier: a write answered "not leader" was read back later.)
+// Only "leader not found", produced locally before anything is sent, is definite.
 func definiteFailure(err error) bool {
-	if err == nil {
-		return false
-	}
-	switch err.Error() {
-	case "not leader", "leader not found", "store not open", "store not ready",
-		"node is not the leader", "leadership transfer in progress", "timed out enqueuing operation":
-		return true
-	}
-	return false
+	return err != nil && err.Error() == "leader not found"
 }
 
 func c02Run(c *core.Ctx, raw json.RawMessage) {
